@@ -22,6 +22,9 @@ Qed.
 Lemma eps_nonneg : 0 <= eps.
 Proof. unfold eps, trap_eps. apply Qle_bool_iff. vm_compute. reflexivity. Qed.
 
+Lemma Qhalf_mul x : x / 2 == (1 # 2) * x.
+Proof. field. Qed.
+
 Lemma Qdiv_mul x b : ~ b == 0 -> x / b * b == x.
 Proof. intro H. field. exact H. Qed.
 
@@ -534,3 +537,407 @@ Proof.
          destruct p as [p'|] eqn:P; [|discriminate] end.
   all: exists p'; split; [reflexivity|exact H].
 Qed.
+
+(* ---------------------------------------------------------------------------------------------- *)
+(* the theorems of Props/C11.v *)
+
+Ltac trap_start H :=
+  let HG := fresh "HG" in let HS := fresh "HS" in let HR := fresh "HR" in
+  apply make_trap_inv in H;
+  destruct H as (HG & HS & HR & [[[amp ro] fl] fo] & HP & HF);
+  apply finish_inv in HF;
+  destruct HF as (Eamp & Efl & Edel & Earea & Efa & Hrf & Hrz & Hfz & Lg & Lr & Lf).
+
+Lemma ramps_of_some (ro fo : option Q) (r f : Q) (X Y : Prop) (gr gf : Q) :
+  ro = Some r -> fo = Some f ->
+  match ro, fo with
+  | None, None => X /\ Y
+  | _, _ => ro = Some gr /\ fo = Some gf
+  end -> gr = r /\ gf = f.
+Proof.
+  intros -> -> [H1 H2]. injection H1 as <-. injection H2 as <-. split; reflexivity.
+Qed.
+
+Lemma path_area a A p : a_area a = Some A -> path_of a = OK p ->
+  area_path A (a_duration a) (a_flat_time a) (rise0_of a) (fall0_of a)
+            (eff_max_grad a) (eff_max_slew a) (raster_of a) = OK p /\
+  a_flat_area a = None /\ a_amplitude a = None.
+Proof.
+  unfold path_of. intros ->. destruct (a_flat_area a), (a_amplitude a); try discriminate.
+  intro H. repeat split; auto.
+Qed.
+
+Lemma path_flat_area a FA p : a_flat_area a = Some FA -> path_of a = OK p ->
+  flat_area_path FA (a_duration a) (a_flat_time a) (rise0_of a) (fall0_of a) = OK p /\
+  a_area a = None /\ a_amplitude a = None.
+Proof.
+  unfold path_of. intros ->. destruct (a_area a), (a_amplitude a); try discriminate.
+  intro H. repeat split; auto.
+Qed.
+
+Lemma path_amplitude a h p : a_amplitude a = Some h -> path_of a = OK p ->
+  amplitude_path h (a_duration a) (a_flat_time a) (rise0_of a) (fall0_of a)
+                 (eff_max_slew a) (raster_of a) = OK p /\
+  a_area a = None /\ a_flat_area a = None.
+Proof.
+  unfold path_of. intros ->. destruct (a_area a), (a_flat_area a); try discriminate.
+  intro H. repeat split; auto.
+Qed.
+
+Lemma path_cases a p : path_of a = OK p ->
+  (exists A, a_area a = Some A) \/ (exists FA, a_flat_area a = Some FA) \/ (exists h, a_amplitude a = Some h).
+Proof.
+  unfold path_of. destruct (a_area a) as [A|]; [left; eexists; reflexivity|].
+  destruct (a_flat_area a) as [FA|]; [right; left; eexists; reflexivity|].
+  destruct (a_amplitude a) as [h|]; [right; right; eexists; reflexivity|discriminate].
+Qed.
+
+Lemma div_den A r f fl : ~ r / 2 + f / 2 + fl == 0 ->
+  A / (r / 2 + f / 2 + fl) * (r / 2 + fl + f / 2) == A.
+Proof.
+  intro H. assert (X : r / 2 + fl + f / 2 == r / 2 + f / 2 + fl) by ring.
+  rewrite X. apply Qdiv_mul. exact H.
+Qed.
+
+(* requested area *)
+Lemma trap_area_exact_l a g A : make_trap a = OK g -> a_area a = Some A ->
+  t_amplitude g * (t_rise g / 2 + t_flat g + t_fall g / 2) == A.
+Proof.
+  intros H HA. trap_start H. destruct (path_area a A _ HA HP) as (HP' & _ & _).
+  apply area_path_inv in HP'. rewrite Eamp, Efl.
+  destruct HP' as [(d & a' & r & fls & f & _ & _ & _ & _ & _ & _ & Hden & -> & Hro & Hfo)
+                 |[(d & r & f & _ & _ & _ & _ & _ & _ & _ & Hden & -> & Hro & Hfo)
+                 |[(t & r & f & _ & _ & _ & -> & Hden & -> & Hro & Hfo)
+                 |(r & f & _ & _ & SP & Hro & Hfo)]]];
+    destruct (ramps_of_some _ _ _ _ _ _ _ _ Hro Hfo Hrf) as [-> ->].
+  - apply div_den; exact Hden.
+  - apply div_den; exact Hden.
+  - apply div_den; exact Hden.
+  - destruct (shortest_spec A _ _ _ HS HG HR _ _ _ _ SP) as (Ef & _ & _ & Har & _).
+    rewrite Ef. rewrite <- Har. field.
+Qed.
+
+(* requested flat area *)
+Lemma trap_flat_area_exact_l a g FA : make_trap a = OK g -> a_flat_area a = Some FA ->
+  t_amplitude g * t_flat g == FA.
+Proof.
+  intros H HA. trap_start H. destruct (path_flat_area a FA _ HA HP) as (HP' & _ & _).
+  apply flat_area_path_inv in HP'. destruct HP' as (_ & _ & Hnz & -> & _ & _).
+  rewrite Eamp, Efl. field. exact Hnz.
+Qed.
+
+(* requested amplitude *)
+Lemma trap_amplitude_exact_l a g h : make_trap a = OK g -> a_amplitude a = Some h -> t_amplitude g = h.
+Proof.
+  intros H HA. trap_start H. destruct (path_amplitude a h _ HA HP) as (HP' & _ & _).
+  apply amplitude_path_inv in HP'. destruct HP' as (-> & _ & _). exact Eamp.
+Qed.
+
+(* derived fields *)
+Lemma trap_area_field_l a g : make_trap a = OK g ->
+  t_area g = t_amplitude g * (t_flat g + t_rise g / 2 + t_fall g / 2) /\
+  t_flat_area g = t_amplitude g * t_flat g.
+Proof.
+  intros H. trap_start H. rewrite Eamp, Efl. split; assumption.
+Qed.
+
+(* effective limits, up to the code's slack *)
+Lemma trap_within_limits_l a g : make_trap a = OK g ->
+  Qabs (t_amplitude g) <= eff_max_grad a + eps /\
+  ~ t_rise g == 0 /\ ~ t_fall g == 0 /\
+  Qabs (t_amplitude g) / t_rise g <= eff_max_slew a * (1 + eps) /\
+  Qabs (t_amplitude g) / t_fall g <= eff_max_slew a * (1 + eps).
+Proof.
+  intros H. trap_start H. rewrite Eamp. repeat split; assumption.
+Qed.
+
+Lemma trap_delay_l a g : make_trap a = OK g -> t_delay g = opt_default (a_delay a) trap_default_delay.
+Proof. intros H. trap_start H. exact Edel. Qed.
+
+(* ---- requested timing ------------------------------------------------------------------------- *)
+Lemma trap_flat_time_l a g t : make_trap a = OK g -> a_flat_time a = Some t -> t_flat g = t.
+Proof.
+  intros H Ht. trap_start H. rewrite Efl.
+  destruct (path_cases a _ HP) as [[A HA]|[[FA HA]|[h HA]]].
+  - destruct (path_area a A _ HA HP) as (HP' & _ & _). apply area_path_inv in HP'.
+    destruct HP' as [(d & a' & r & fls & f & _ & C & _)
+                   |[(d & r & f & _ & C & _)
+                   |[(t' & r & f & C & _ & _ & -> & _)
+                   |(r & f & _ & C & _)]]]; rewrite Ht in C; try discriminate.
+    injection C as ->. reflexivity.
+  - destruct (path_flat_area a FA _ HA HP) as (HP' & _ & _). apply flat_area_path_inv in HP'.
+    destruct HP' as (_ & C & _). rewrite Ht in C. injection C as ->. reflexivity.
+  - destruct (path_amplitude a h _ HA HP) as (HP' & _ & _). apply amplitude_path_inv in HP'.
+    destruct HP' as (_ & _ & [(d & r & f & _ & C & _)|(_ & C)]); rewrite Ht in C; [discriminate|].
+    injection C as ->. reflexivity.
+Qed.
+
+Lemma trap_duration_l a g d : make_trap a = OK g -> a_duration a = Some d -> a_flat_time a = None ->
+  d <= t_rise g + t_flat g + t_fall g /\ t_rise g + t_flat g + t_fall g <= d + eps /\
+  (a_amplitude a = None \/ t_rise g + t_fall g <= d -> t_rise g + t_flat g + t_fall g == d).
+Proof.
+  intros H Hd Hft. trap_start H. rewrite Efl. pose proof eps_nonneg as He.
+  destruct (path_cases a _ HP) as [[A HA]|[[FA HA]|[h HA]]].
+  - destruct (path_area a A _ HA HP) as (HP' & _ & _). apply area_path_inv in HP'.
+    destruct HP' as [(d' & a' & r & fls & f & Cd & _ & _ & _ & _ & -> & _ & _ & Hro & Hfo)
+                   |[(d' & r & f & Cd & _ & _ & _ & _ & _ & -> & _ & _ & Hro & Hfo)
+                   |[(t' & r & f & C & _)
+                   |(r & f & C & _)]]].
+    + rewrite Hd in Cd. injection Cd as <-.
+      destruct (ramps_of_some _ _ _ _ _ _ _ _ Hro Hfo Hrf) as [-> ->].
+      repeat split; try lra; try (intros _; ring).
+    + rewrite Hd in Cd. injection Cd as <-.
+      destruct (ramps_of_some _ _ _ _ _ _ _ _ Hro Hfo Hrf) as [-> ->].
+      repeat split; try lra; try (intros _; ring).
+    + rewrite Hft in C. discriminate.
+    + rewrite Hd in C. discriminate.
+  - destruct (path_flat_area a FA _ HA HP) as (HP' & _ & _). apply flat_area_path_inv in HP'.
+    destruct HP' as (C & _). rewrite Hd in C. discriminate.
+  - destruct (path_amplitude a h _ HA HP) as (HP' & _ & _). apply amplitude_path_inv in HP'.
+    destruct HP' as (_ & _ & [(d' & r & f & Cd & _ & Hro & Hfo & Hle & ->)|(C & _)]);
+      [|rewrite Hd in C; discriminate].
+    rewrite Hd in Cd. injection Cd as <-.
+    destruct (ramps_of_some _ _ _ _ _ _ _ _ Hro Hfo Hrf) as [-> ->].
+    destruct (Qmax_spec (d - r - f) 0) as [[L E]|[L E]]; rewrite E.
+    + split; [lra|]. split; [lra|]. intros [C|C]; [rewrite HA in C; discriminate|]. lra.
+    + split; [lra|]. split; [lra|]. intros _. ring.
+Qed.
+
+Definition supplied_timing (a : targs) : Prop :=
+  a_area a = None \/ a_duration a <> None \/ a_flat_time a <> None.
+
+Lemma trap_ramps_kept a g r : make_trap a = OK g -> rise0_of a = Some r -> supplied_timing a ->
+  t_rise g = r /\ fall0_of a = Some (t_fall g).
+Proof.
+  intros H Hr0 Hsup. trap_start H.
+  destruct (rise0_Some_fall0 a r Hr0) as [f0v Hf0].
+  assert (K : ro = Some r /\ fo = Some f0v).
+  { destruct (path_cases a _ HP) as [[A HA]|[[FA HA]|[h HA]]].
+    - destruct (path_area a A _ HA HP) as (HP' & _ & _). apply area_path_inv in HP'.
+      rewrite Hr0, Hf0 in HP'.
+      destruct HP' as [(d' & a' & r' & fls & f & _ & _ & C & _)
+                     |[(d' & r' & f & _ & _ & C & -> & _ & _ & _ & _ & _ & Hro & Hfo)
+                     |[(t' & r' & f & _ & C & C' & _ & _ & _ & Hro & Hfo)
+                     |(r' & f & Cd & Cf & _)]]].
+      + discriminate.
+      + injection C as <-. split; assumption.
+      + injection C as <-. injection C' as <-. split; assumption.
+      + destruct Hsup as [X|[X|X]]; [rewrite HA in X; discriminate|contradiction|contradiction].
+    - destruct (path_flat_area a FA _ HA HP) as (HP' & _ & _). apply flat_area_path_inv in HP'.
+      destruct HP' as (_ & _ & _ & _ & -> & ->). split; assumption.
+    - destruct (path_amplitude a h _ HA HP) as (HP' & _ & _). apply amplitude_path_inv in HP'.
+      destruct HP' as (_ & [(C & _)|(_ & -> & ->)] & _); [rewrite Hr0 in C; discriminate|].
+      split; assumption. }
+  destruct K as [Kr Kf]. destruct (ramps_of_some _ _ _ _ _ _ _ _ Kr Kf Hrf) as [-> ->].
+  split; [reflexivity|exact Hf0].
+Qed.
+
+Lemma rise0_of_fall a f : a_fall a = Some f -> ~ f == 0 -> exists r, rise0_of a = Some r /\ (a_rise a = None -> r = f).
+Proof.
+  intros Hf Hnz. unfold rise0_of, por. rewrite Hf. destruct (a_rise a) as [v|].
+  - destruct (Qeq_bool v 0); eexists; (split; [reflexivity|discriminate]).
+  - eexists; split; [reflexivity|reflexivity].
+Qed.
+
+Lemma trap_timing_as_requested_l a g : make_trap a = OK g ->
+  (forall t, a_flat_time a = Some t -> t_flat g = t) /\
+  (forall d, a_duration a = Some d -> a_flat_time a = None ->
+     d <= t_rise g + t_flat g + t_fall g /\ t_rise g + t_flat g + t_fall g <= d + eps /\
+     (a_amplitude a = None \/ t_rise g + t_fall g <= d -> t_rise g + t_flat g + t_fall g == d)) /\
+  (supplied_timing a ->
+     (forall r, a_rise a = Some r -> ~ r == 0 -> t_rise g = r /\ (a_fall a = None -> t_fall g = r)) /\
+     (forall f, a_fall a = Some f -> ~ f == 0 -> t_fall g = f /\ (a_rise a = None -> t_rise g = f))).
+Proof.
+  intro H. split; [intros t; apply trap_flat_time_l; exact H|].
+  split; [intros d; apply trap_duration_l; exact H|].
+  intro Hsup. split.
+  - intros r Hr Hnz.
+    assert (R0 : rise0_of a = Some r) by (apply por_Some_nz; assumption).
+    destruct (trap_ramps_kept a g r H R0 Hsup) as [E1 E2]. split; [exact E1|].
+    intro Hf. unfold fall0_of in E2. rewrite Hf, R0 in E2. cbn [por] in E2. congruence.
+  - intros f Hf Hnz. destruct (rise0_of_fall a f Hf Hnz) as [r [R0 Rn]].
+    destruct (trap_ramps_kept a g r H R0 Hsup) as [E1 E2].
+    assert (F0 : fall0_of a = Some f) by (apply por_Some_nz; assumption).
+    split; [congruence|]. intro Hr. rewrite E1. apply Rn. exact Hr.
+Qed.
+
+(* ---- ramps chosen by the function are positive multiples of the raster ------------------------- *)
+Definition chosen_ramps (a : targs) : Prop :=
+  rise0_of a = None \/ (a_area a <> None /\ a_duration a = None /\ a_flat_time a = None).
+
+Lemma shortest_rise_time_raster amp S R : 0 < R ->
+  exists k, (1 <= k)%Z /\ shortest_rise_time amp S R == inject_Z k * R.
+Proof.
+  intro HR. unfold shortest_rise_time, ceil_raster.
+  exists (Qceiling (Qmax (Qabs amp / S) R / R)). split; [|reflexivity].
+  change 1%Z with (Qceiling (inject_Z 1)). apply Qceiling_resp_le. change (inject_Z 1) with 1.
+  apply Qle_div_iff; [exact HR|]. pose proof (Qmax_ub_r (Qabs amp / S) R). lra.
+Qed.
+
+Lemma amp_chosen_rise_raster amp S R : 0 < S -> 0 < R ->
+  exists k, (1 <= k)%Z /\ amp_chosen_rise amp S R == inject_Z k * R.
+Proof.
+  intros HS HR. unfold amp_chosen_rise. destruct (isz _) eqn:Z.
+  - exists 1%Z. split; [lia|]. change (inject_Z 1) with 1. ring.
+  - apply isz_false in Z. unfold ceil_raster in *.
+    set (n := Qceiling (Qabs amp / S / R)) in *. exists n. split; [|reflexivity].
+    assert (Hn : (0 <= n)%Z).
+    { apply ceil_raster_count_nonneg; [exact HR|]. apply Qdiv_pos_nonneg; [apply Qabs_nonneg|exact HS]. }
+    destruct (Z.eq_dec n 0) as [E|E]; [|lia]. exfalso. apply Z. rewrite E. change (inject_Z 0) with 0. ring.
+Qed.
+
+Lemma trap_chosen_on_raster_positive_l a g : make_trap a = OK g -> chosen_ramps a ->
+  exists k, (1 <= k)%Z /\ t_rise g == inject_Z k * raster_of a /\ t_fall g = t_rise g.
+Proof.
+  intros H Hch. trap_start H.
+  destruct (path_cases a _ HP) as [[A HA]|[[FA HA]|[h HA]]].
+  - destruct (path_area a A _ HA HP) as (HP' & _ & _). apply area_path_inv in HP'.
+    destruct HP' as [(d' & a' & r & fls & f & _ & _ & _ & SP & _ & _ & _ & _ & Hro & Hfo)
+                   |[(d' & r & f & Cd & _ & C & _)
+                   |[(t' & r & f & Ct & C & _)
+                   |(r & f & _ & _ & SP & Hro & Hfo)]]].
+    + destruct (ramps_of_some _ _ _ _ _ _ _ _ Hro Hfo Hrf) as [-> ->].
+      destruct (shortest_spec A _ _ _ HS HG HR _ _ _ _ SP) as (Ef & (k & Hk & Ek) & _).
+      exists k. repeat split; assumption.
+    + destruct Hch as [X|(_ & X & _)]; [rewrite C in X; discriminate|rewrite Cd in X; discriminate].
+    + destruct Hch as [X|(_ & _ & X)]; [rewrite C in X; discriminate|rewrite Ct in X; discriminate].
+    + destruct (ramps_of_some _ _ _ _ _ _ _ _ Hro Hfo Hrf) as [-> ->].
+      destruct (shortest_spec A _ _ _ HS HG HR _ _ _ _ SP) as (Ef & (k & Hk & Ek) & _).
+      exists k. repeat split; assumption.
+  - destruct (path_flat_area a FA _ HA HP) as (HP' & HnA & _). apply flat_area_path_inv in HP'.
+    destruct HP' as (_ & _ & _ & _ & -> & ->).
+    destruct Hch as [X|(X & _)]; [|rewrite HnA in X; contradiction].
+    rewrite X, (rise0_None_fall0 a X) in Hrf. destruct Hrf as [E1 E2].
+    destruct (shortest_rise_time_raster amp (eff_max_slew a) (raster_of a) HR) as (k & Hk & Ek).
+    exists k. rewrite E1, E2. repeat split; assumption.
+  - destruct (path_amplitude a h _ HA HP) as (HP' & HnA & _). apply amplitude_path_inv in HP'.
+    destruct HP' as (_ & [(_ & Hro & Hfo)|(C & _)] & _).
+    + destruct (ramps_of_some _ _ _ _ _ _ _ _ Hro Hfo Hrf) as [-> E2].
+      destruct (amp_chosen_rise_raster h _ _ HS HR) as (k & Hk & Ek).
+      exists k. rewrite <- E2 in Ek. repeat split; try assumption. congruence.
+    + destruct Hch as [X|(X & _)]; [contradiction|rewrite HnA in X; contradiction].
+Qed.
+
+Lemma trap_area_only_flat_raster_l a g A : make_trap a = OK g ->
+  a_area a = Some A -> a_duration a = None -> a_flat_time a = None ->
+  exists m, (0 <= m)%Z /\ t_flat g == inject_Z m * raster_of a.
+Proof.
+  intros H HA Hd Hft. trap_start H. rewrite Efl.
+  destruct (path_area a A _ HA HP) as (HP' & _ & _). apply area_path_inv in HP'.
+  destruct HP' as [(d' & a' & r & fls & f & C & _)
+                 |[(d' & r & f & C & _)
+                 |[(t' & r & f & C & _)
+                 |(r & f & _ & _ & SP & Hro & Hfo)]]];
+    try (rewrite Hd in C; discriminate); try (rewrite Hft in C; discriminate).
+  destruct (shortest_spec A _ _ _ HS HG HR _ _ _ _ SP) as (_ & _ & Hm & _). exact Hm.
+Qed.
+
+(* ---- the flat time is never negative ---------------------------------------------------------- *)
+Lemma trap_flat_nonneg_l a g : make_trap a = OK g ->
+  (forall t, a_flat_time a = Some t -> 0 <= t) -> 0 <= t_flat g.
+Proof.
+  intros H Hreq. trap_start H. rewrite Efl.
+  destruct (path_cases a _ HP) as [[A HA]|[[FA HA]|[h HA]]].
+  - destruct (path_area a A _ HA HP) as (HP' & _ & _). apply area_path_inv in HP'.
+    destruct HP' as [(d' & a' & r & fls & f & _ & _ & _ & SP & Hmin & -> & _)
+                   |[(d' & r & f & _ & _ & _ & _ & _ & Hle & -> & _)
+                   |[(t' & r & f & Ct & _ & _ & -> & _)
+                   |(r & f & _ & _ & SP & _)]]].
+    + destruct (shortest_spec A _ _ _ HS HG HR _ _ _ _ SP) as (_ & _ & (m & Hm & Em) & _).
+      assert (0 <= fls).
+      { rewrite Em. apply Qmult_le_0_compat; [|lra]. change 0 with (inject_Z 0). rewrite <- Zle_Qle. exact Hm. }
+      lra.
+    + lra.
+    + apply Hreq. exact Ct.
+    + destruct (shortest_spec A _ _ _ HS HG HR _ _ _ _ SP) as (_ & _ & (m & Hm & Em) & _).
+      rewrite Em. apply Qmult_le_0_compat; [|lra]. change 0 with (inject_Z 0). rewrite <- Zle_Qle. exact Hm.
+  - destruct (path_flat_area a FA _ HA HP) as (HP' & _ & _). apply flat_area_path_inv in HP'.
+    destruct HP' as (_ & C & _). apply Hreq. exact C.
+  - destruct (path_amplitude a h _ HA HP) as (HP' & _ & _). apply amplitude_path_inv in HP'.
+    destruct HP' as (_ & _ & [(d' & r & f & _ & _ & _ & _ & _ & ->)|(_ & C)]).
+    + apply Qmax_ub_r.
+    + apply Hreq. exact C.
+Qed.
+
+(* ---- area-only request: at most two rasters above ANY continuous-time trapezoid within the limits *)
+Lemma trap_near_optimal_l a g A : make_trap a = OK g ->
+  a_area a = Some A -> a_duration a = None -> a_flat_time a = None ->
+  forall c rc fc flc : Q,
+    0 < rc -> 0 < flc -> 0 <= fc ->
+    Qabs c <= eff_max_grad a -> Qabs c / rc <= eff_max_slew a -> Qabs c / flc <= eff_max_slew a ->
+    c * (rc / 2 + fc + flc / 2) == A ->
+    t_rise g + t_flat g + t_fall g <= rc + fc + flc + 2 * raster_of a.
+Proof.
+  intros H HA Hd Hft c rc fc flc Hrc Hflc Hfc Hcg Hcr Hcf Harea. trap_start H. rewrite Efl.
+  destruct (path_area a A _ HA HP) as (HP' & _ & _). apply area_path_inv in HP'.
+  destruct HP' as [(d' & a' & r & fls & f & C & _)
+                 |[(d' & r & f & C & _)
+                 |[(t' & r & f & C & _)
+                 |(r & f & _ & _ & SP & Hro & Hfo)]]];
+    try (rewrite Hd in C; discriminate); try (rewrite Hft in C; discriminate).
+  destruct (ramps_of_some _ _ _ _ _ _ _ _ Hro Hfo Hrf) as [-> ->].
+  destruct (shortest_spec A _ _ _ HS HG HR _ _ _ _ SP) as (_ & _ & _ & _ & Hopt).
+  set (T := rc / 2 + fc + flc / 2) in *.
+  assert (HT : 0 < T) by (unfold T; rewrite !Qhalf_mul; lra).
+  assert (EA : Qabs A == Qabs c * T).
+  { rewrite <- Harea. rewrite Qabs_Qmult. rewrite (Qabs_pos T); [reflexivity|lra]. }
+  specialize (Hopt (Qabs c) T (Qabs_nonneg c) Hcg HT EA).
+  assert (H1 : Qabs c / eff_max_slew a <= rc).
+  { apply Qdiv_le_iff; [exact HS|]. apply Qdiv_le_iff in Hcr; [|exact Hrc]. rewrite Qmult_comm. exact Hcr. }
+  assert (H2 : Qabs c / eff_max_slew a <= flc).
+  { apply Qdiv_le_iff; [exact HS|]. apply Qdiv_le_iff in Hcf; [|exact Hflc]. rewrite Qmult_comm. exact Hcf. }
+  unfold T in Hopt. rewrite !Qhalf_mul in Hopt. lra.
+Qed.
+
+(* ---------------------------------------------------------------------------------------------- *)
+(* example calls for the non-vacuity Examples of Props/C11.v (default system of pypulseq:
+   40 mT/m, 170 T/m/s at gamma = 42.576 MHz/T, raster 10 us) *)
+Definition ex_sys : tsys := {| s_max_grad := 1703040; s_max_slew := 7237920000; s_raster := 1 # 100000 |}.
+Definition ex_args : targs :=
+  {| a_channel_ok := true; a_amplitude := None; a_area := None; a_delay := None; a_duration := None;
+     a_fall := None; a_flat_area := None; a_flat_time := None; a_max_grad := None; a_max_slew := None;
+     a_rise := None; a_sys := ex_sys |}.
+Definition with_area (a : targs) v := {| a_channel_ok := a_channel_ok a; a_amplitude := a_amplitude a; a_area := Some v;
+  a_delay := a_delay a; a_duration := a_duration a; a_fall := a_fall a; a_flat_area := a_flat_area a;
+  a_flat_time := a_flat_time a; a_max_grad := a_max_grad a; a_max_slew := a_max_slew a; a_rise := a_rise a;
+  a_sys := a_sys a |}.
+Definition with_amplitude (a : targs) v := {| a_channel_ok := a_channel_ok a; a_amplitude := Some v; a_area := a_area a;
+  a_delay := a_delay a; a_duration := a_duration a; a_fall := a_fall a; a_flat_area := a_flat_area a;
+  a_flat_time := a_flat_time a; a_max_grad := a_max_grad a; a_max_slew := a_max_slew a; a_rise := a_rise a;
+  a_sys := a_sys a |}.
+Definition with_flat_area (a : targs) v := {| a_channel_ok := a_channel_ok a; a_amplitude := a_amplitude a; a_area := a_area a;
+  a_delay := a_delay a; a_duration := a_duration a; a_fall := a_fall a; a_flat_area := Some v;
+  a_flat_time := a_flat_time a; a_max_grad := a_max_grad a; a_max_slew := a_max_slew a; a_rise := a_rise a;
+  a_sys := a_sys a |}.
+Definition with_duration (a : targs) v := {| a_channel_ok := a_channel_ok a; a_amplitude := a_amplitude a; a_area := a_area a;
+  a_delay := a_delay a; a_duration := Some v; a_fall := a_fall a; a_flat_area := a_flat_area a;
+  a_flat_time := a_flat_time a; a_max_grad := a_max_grad a; a_max_slew := a_max_slew a; a_rise := a_rise a;
+  a_sys := a_sys a |}.
+Definition with_flat_time (a : targs) v := {| a_channel_ok := a_channel_ok a; a_amplitude := a_amplitude a; a_area := a_area a;
+  a_delay := a_delay a; a_duration := a_duration a; a_fall := a_fall a; a_flat_area := a_flat_area a;
+  a_flat_time := Some v; a_max_grad := a_max_grad a; a_max_slew := a_max_slew a; a_rise := a_rise a;
+  a_sys := a_sys a |}.
+Definition with_rise (a : targs) v := {| a_channel_ok := a_channel_ok a; a_amplitude := a_amplitude a; a_area := a_area a;
+  a_delay := a_delay a; a_duration := a_duration a; a_fall := a_fall a; a_flat_area := a_flat_area a;
+  a_flat_time := a_flat_time a; a_max_grad := a_max_grad a; a_max_slew := a_max_slew a; a_rise := Some v;
+  a_sys := a_sys a |}.
+Definition with_fall (a : targs) v := {| a_channel_ok := a_channel_ok a; a_amplitude := a_amplitude a; a_area := a_area a;
+  a_delay := a_delay a; a_duration := a_duration a; a_fall := Some v; a_flat_area := a_flat_area a;
+  a_flat_time := a_flat_time a; a_max_grad := a_max_grad a; a_max_slew := a_max_slew a; a_rise := a_rise a;
+  a_sys := a_sys a |}.
+Definition with_max_slew (a : targs) v := {| a_channel_ok := a_channel_ok a; a_amplitude := a_amplitude a; a_area := a_area a;
+  a_delay := a_delay a; a_duration := a_duration a; a_fall := a_fall a; a_flat_area := a_flat_area a;
+  a_flat_time := a_flat_time a; a_max_grad := a_max_grad a; a_max_slew := Some v; a_rise := a_rise a;
+  a_sys := a_sys a |}.
+
+Definition us (n : Z) : Q := inject_Z n * (1 # 1000000).
+Definition is_ok {A} (r : tresult A) : bool := match r with OK _ => true | Err _ => false end.
+Definition err_is {A} (r : tresult A) (e : trap_err) : bool :=
+  match r with
+  | OK _ => false
+  | Err e' => match e, e' with
+              | E_dur_short_amp, E_dur_short_amp | E_min_duration, E_min_duration
+              | E_not_possible, E_not_possible | E_amp, E_amp | E_slew_rise, E_slew_rise
+              | E_slew_fall, E_slew_fall | E_unbound, E_unbound => true
+              | _, _ => false end
+  end.
